@@ -275,6 +275,21 @@ def f_brush_ent_vis_flags(vmf: VMF) -> None:
         e.solids.append(sol)
 
 
+def f_multiblend_colors_after_first(vmf: VMF) -> None:
+    """Tints on some vertexes only, and not on vertex (0, 0): per-vertex state, nothing is implied by the first vertex."""
+    d = first_disp(vmf)
+    for k, v in enumerate(d._disp_verts):  # noqa: SLF001
+        v.multi_blend = Vec4(0.25, 0.0, 0.5, 0.0)
+        if k in (1, 3):
+            v.multi_colors = [Vec(0.5, 0.25, 1), Vec(0, 1, 0), Vec(1, 1, 1), Vec(0.125, 0.75, 0)]
+
+
+def f_visgroup_blank_name(vmf: VMF) -> None:
+    g = vmf.create_visgroup('')
+    g.child_groups.append(VisGroup(vmf, ''))
+    g.child_groups.append(VisGroup(vmf, ' '))
+
+
 def f_fixup_whitespace(vmf: VMF) -> None:
     e = vmf.create_ent('func_instance', file='d.vmf')
     e.fixup['padded'] = 'value with trailing space '
@@ -428,7 +443,7 @@ FEATURES: list[tuple[str, Callable[[VMF], None]]] = [(f.__name__[2:], f) for f i
     f_ent_plain, f_ent_special_values, f_ent_special_keys, f_out_esc, f_out_comma, f_out_inst, f_out_param_comma,
     f_out_delay_frac, f_out_special, f_fixup_one, f_fixup_collide, f_fixup_quote, f_fixup_whitespace, f_ent_hidden, f_brush_ent,
     f_brush_ent_hidden_solid, f_world_prism, f_world_hidden_solid, f_face_arbitrary, f_face_rotation_sig, f_face_mat_name,
-    f_disp1, f_disp2, f_disp3, f_disp4, f_disp_flags, f_multiblend, f_multiblend_default_colors, f_multiblend_partial, f_multiblend_w_only, f_disp_fresh, f_brush_ent_vis_flags, f_strata_points, f_visgroups,
+    f_disp1, f_disp2, f_disp3, f_disp4, f_disp_flags, f_multiblend, f_multiblend_default_colors, f_multiblend_partial, f_multiblend_w_only, f_multiblend_colors_after_first, f_visgroup_blank_name, f_disp_fresh, f_brush_ent_vis_flags, f_strata_points, f_visgroups,
     f_visgroup_membership, f_vis_flags, f_groups, f_camera_one, f_camera_two, f_cordon_one, f_cordon_two, f_strata_views,
     f_strata_views_zero, f_strata_inst_vis, f_view_flags, f_comments, f_logical_pos, f_editor_colors, f_quickhide, f_versions,
     f_cordon_solid, f_worldspawn_keys, f_worldspawn_editor, f_node_ids, f_ent_keys_types,
